@@ -699,8 +699,12 @@ impl Lockfile {
         let path = Self::resolve_path(url)?;
         let lock = veryl_path::lock_dir("resolve")?;
         let git = self.git_clone(url, &path)?;
+        #[cfg(all(feature = "verif", not(target_family = "wasm")))]
+        veryl_path::sim::point("resolve.cloned", &path).map_err(|x| MetadataError::file_io(x, &path))?;
         git.fetch()?;
         git.checkout(None)?;
+        #[cfg(all(feature = "verif", not(target_family = "wasm")))]
+        veryl_path::sim::point("resolve.checked_out", &path).map_err(|x| MetadataError::file_io(x, &path))?;
         veryl_path::unlock_dir(lock)?;
 
         let Some(prj_path) = Self::search_project(&path, project) else {
@@ -789,11 +793,19 @@ impl Lockfile {
                     // Acquire the lock before checking path existence to prevent
                     // race conditions where gix::prepare_clone creates an
                     // incomplete directory that other threads may observe.
+                    #[cfg(all(feature = "verif", not(target_family = "wasm")))]
+                    veryl_path::sim::point("dep.enter", &path).map_err(|x| MetadataError::file_io(x, &path))?;
                     let lock = veryl_path::lock_dir("dependencies")?;
                     if !path.exists() {
                         let git = self.git_clone(&x.url, &path)?;
+                        #[cfg(all(feature = "verif", not(target_family = "wasm")))]
+                        veryl_path::sim::point("dep.cloned", &path).map_err(|x| MetadataError::file_io(x, &path))?;
                         git.fetch()?;
+                        #[cfg(all(feature = "verif", not(target_family = "wasm")))]
+                        veryl_path::sim::point("dep.fetched", &path).map_err(|x| MetadataError::file_io(x, &path))?;
                         git.checkout(Some(&x.revision))?;
+                        #[cfg(all(feature = "verif", not(target_family = "wasm")))]
+                        veryl_path::sim::point("dep.checked_out", &path).map_err(|x| MetadataError::file_io(x, &path))?;
                     } else {
                         let git = Git::open(&path)?;
                         let ret = git.is_clean().is_ok_and(|x| x);
